@@ -99,7 +99,7 @@ extern "C" std::uint64_t xenium_verif_random();
 
 inline std::uint64_t random() {
 #ifdef XENIUM_VERIF
-  return ::xenium_verif_random();
+  return xenium_verif_random();
 #endif
   return getticks() >> 4;
 }
